@@ -237,6 +237,29 @@ def run(tier, seed, rng):
         k += 1   # True is an int in python: encodes as 1
         if not ('ok' in o and int.from_bytes(bytes.fromhex(o['ok']), 'big' if ref_big(c[2], c[3]) else 'little') == 1):
             failures.append(dict(kind='oracle', sig='int-bool', what=f"Int({c[0]}) does not pack True as 1", observed=o, cls=class_src(c)))
+    # ---- a non-integer that EQUALS an integer the same field packed a moment ago (7.0, Fraction(7), Decimal(7) after 7; -2.0 after -2):
+    # still rejected -- whatever the field remembers of earlier values must not let equal-but-not-integer values through
+    msrc = "from fractions import Fraction\nfrom decimal import Decimal\n"
+    mcases, mmeta = [], []
+    for n in (1, 2, 3, 5, 6, 7, 8, 12, 16):
+        for gen_ in (True, False):
+            nm = f"Mem{n}{'' if gen_ else 'L'}"
+            conf = {} if gen_ else dict(generate_for_pack=False, generate_for_unpack=False)
+            msrc += f"class {nm}(Packet):\n    __bisturi__ = {conf!r}\n    v = Int({n}, signed=True)\n    xs = Int({n}, signed=True).repeated(2)\n"
+            for v in (7, -2, 0, 100):
+                mcases.append(dict(cls=nm, op='pack', value={"py": f"{nm}(v={v}, xs=[{v}, {v}])"})); mmeta.append((nm, n, v, None))
+                for alt in (f"{v}.0", f"Fraction({v})", f"Decimal({v})"):
+                    mcases.append(dict(cls=nm, op='pack', value={"py": f"{nm}(v={alt}, xs=[1, 2])"})); mmeta.append((nm, n, v, alt))
+                    mcases.append(dict(cls=nm, op='pack', value={"py": f"{nm}(v=1, xs=[{alt}, 5])"})); mmeta.append((nm, n, v, 'xs[0]=' + alt))
+    mres = run_impl(os.path.join(VERIF, 'harness', 'impl_pkt.py'), dict(header=HEADER_PY, blocks=[dict(name='memo', src=msrc)], modname='c05m', cases=mcases))
+    for (nm, n, v, alt), o in zip(mmeta, mres['outcomes']):
+        if alt is None:
+            want = v.to_bytes(n, 'big', signed=True).hex() * 3
+            if o.get('ok') != want:
+                failures.append(dict(kind='oracle', sig='int-encode', what=f"Int({n}, signed=True) x3 holding {v}: pack gives {o}, required {want}", cls=nm, value=v, observed=o))
+        elif not ('err' in o and o['err'] == 'packing'):
+            failures.append(dict(kind='oracle', sig='int-nonint-after-equal-int', what=f"Int({n}, signed=True) packs the non-integer {alt} without PacketError after the equal integer {v} was packed by the same field",
+                                 cls='class ' + [c for c in msrc.split('class ') if c.startswith(nm + '(')][0], value=alt, observed=o))
     # ---- integers next to each other: adjacent fixed-size fields are decoded / encoded by one struct call in generated code;
     # each field must still get its OWN byte order, signedness and bytes
     nb = neighbours(tier, rng)
